@@ -37,6 +37,14 @@ pub struct ChanCase {
     pub nested: Vec<NestedOp>,
     pub schedule: Vec<u8>,
     pub weak: bool,
+    /// how many values the final drain takes out before the channel is dropped (>= 7: all of
+    /// them); what is left inside must be released by the channel's own drop, exactly once each
+    #[serde(default = "full_drain")]
+    pub drain: u8,
+}
+
+fn full_drain() -> u8 {
+    255
 }
 
 const LEDGER_N: usize = 512;
@@ -71,8 +79,9 @@ pub fn strategy() -> BoxedStrategy<ChanCase> {
         prop_oneof![3 => Just(true), 1 => Just(false)],
         // optional sync pair: (from thread, after op k, to thread, before op m)
         prop::option::weighted(0.3, (0usize..4, 0usize..6, 0usize..4, 0usize..6)),
+        prop_oneof![1 => Just(255u8), 1 => 0u8..5],
     )
-        .prop_map(|(prefix, mut threads, nested, schedule, weak, sync)| {
+        .prop_map(|(prefix, mut threads, nested, schedule, weak, sync, drain)| {
             let n = threads.len();
             if let Some((a, k, b, m)) = sync {
                 let (a, b) = (a % n, b % n);
@@ -87,7 +96,7 @@ pub fn strategy() -> BoxedStrategy<ChanCase> {
                 .into_iter()
                 .map(|(t, at, recv, solo)| NestedOp { thread: t % n, at, recv, solo })
                 .collect();
-            ChanCase { prefix, threads, nested, schedule, weak }
+            ChanCase { prefix, threads, nested, schedule, weak, drain }
         })
         .boxed()
 }
@@ -223,9 +232,10 @@ pub fn execute(case: &ChanCase) -> ChanRun {
     if completed {
         let c = vsched::call("drain", 0, 0);
         let ch2 = ch.clone();
+        let limit = if case.drain >= 7 { u32::MAX } else { case.drain as u32 };
         let r = std::panic::catch_unwind(std::panic::AssertUnwindSafe(move || {
             let mut guard = 0;
-            while do_recv(&ch2).is_some() {
+            while guard < limit && do_recv(&ch2).is_some() {
                 guard += 1;
                 if guard > 20 {
                     vsched::violate("C06/drain-endless", "drain returned more than 20 values".into());
@@ -237,9 +247,17 @@ pub fn execute(case: &ChanCase) -> ChanRun {
             vsched::driver_panic(vsched::take_last_panic().unwrap_or_default());
         }
         vsched::ret(c, 0);
+        // the nested-operation closure holds the only other reference
+        exec.set_nested_fn(Arc::new(|_| {}));
+        vsched::mark("channel-drop-start", 0, 0);
         match Arc::try_unwrap(ch) {
-            Ok(c) => drop(c),
-            Err(_) => {}
+            Ok(c) => {
+                let r = std::panic::catch_unwind(std::panic::AssertUnwindSafe(move || drop(c)));
+                if r.is_err() {
+                    vsched::driver_panic(vsched::take_last_panic().unwrap_or_default());
+                }
+            }
+            Err(_) => vsched::driver_panic("harness: the channel is still shared at the end of the run".into()),
         }
         vsched::mark("channel-dropped", 0, 0);
     }
@@ -304,6 +322,9 @@ pub fn analyse(case: &ChanCase, run: &ChanRun) -> CaseReport {
     let mut post = false;
     let mut drops: Vec<(usize, i32, i64)> = Vec::new(); // (log idx, tid, id)
     let mut panics: Vec<(i32, String)> = Vec::new();
+    let mut chan_drop_start: Option<usize> = None;
+    let mut chan_dropped = false;
+    let mut left_inside: Vec<(usize, u64, i64, Vc)> = Vec::new();
     for (i, r) in log.iter().enumerate() {
         match &r.item {
             Item::Call { id, name, a, .. } => {
@@ -335,10 +356,33 @@ pub fn analyse(case: &ChanCase, run: &ChanRun) -> CaseReport {
                     }
                 }
             }
-            Item::Mark { name, a, .. } if *name == "drop" => drops.push((i, r.tid, *a)),
+            Item::Mark { name, a, .. } if *name == "drop" => {
+                drops.push((i, r.tid, *a));
+                if let Some(start) = chan_drop_start {
+                    if !chan_dropped {
+                        // released by the channel's own drop: it stayed inside to the very end
+                        left_inside.push((start, r.step, *a, r.vc));
+                    }
+                }
+            }
+            Item::Mark { name, .. } if *name == "channel-drop-start" => chan_drop_start = Some(i),
+            Item::Mark { name, .. } if *name == "channel-dropped" => chan_dropped = true,
             Item::Panic { msg } => panics.push((r.tid, msg.clone())),
             _ => {}
         }
+    }
+    // A value the channel itself released when it was dropped counts as obtained at that instant
+    // (all of them at the same instant: the order in which a dropped channel releases its
+    // contents is nobody's business).
+    if !left_inside.is_empty() {
+        rep.class("dropped-non-empty");
+    }
+    let mut seen_left: std::collections::BTreeSet<i64> = ops.iter().filter(|o| !o.is_send && o.val >= 0).map(|o| o.val).collect();
+    for (start, step, id, vc) in &left_inside {
+        if !seen_left.insert(*id) {
+            continue; // a second release of one value is the drop ledger's (C07) business
+        }
+        ops.push(OpRec { tid: -1, is_send: false, val: *id, call_idx: *start, ret_idx: Some(*start), call_vc: *vc, ret_vc: *vc, call_step: *step, post: true, depth: 0 });
     }
     // ---- C08: panics, solo bounds
     for (t, m) in &panics {
